@@ -427,7 +427,34 @@ func (c *Ctx) sqlWiring() {
 		}
 		return true
 	})
-	// fields assigned after the literal
+	// fields assigned by the constructor or an unexported helper of it, also in the tuple form
+	// `s.f, err = db.Prepare(dialect.M())`
+	for _, member := range c.family(ctor) {
+		if member.Decl.Body == nil {
+			continue
+		}
+		ast.Inspect(member.Decl.Body, func(nd ast.Node) bool {
+			as, ok := nd.(*ast.AssignStmt)
+			if !ok || len(as.Lhs) != 2 || len(as.Rhs) != 1 {
+				return true
+			}
+			sel, isSel := as.Lhs[0].(*ast.SelectorExpr)
+			call, isCall := ast.Unparen(as.Rhs[0]).(*ast.CallExpr)
+			if !isSel || !isCall || len(call.Args) != 1 || !strings.HasSuffix(calleeName(info, call), "database/sql.(DB).Prepare") {
+				return true
+			}
+			if v, isF := info.ObjectOf(sel.Sel).(*types.Var); !isF || !v.IsField() {
+				return true
+			}
+			txt, _ := c.origin(info, member.Decl, call.Args[0], 0)
+			if dc, isC := txt.(*ast.CallExpr); isC {
+				if fn := callee(info, dc); fn != nil {
+					fieldFrom[sel.Sel.Name] = fn.Name()
+				}
+			}
+			return true
+		})
+	}
 	ast.Inspect(ctor.Decl.Body, func(nd ast.Node) bool {
 		as, ok := nd.(*ast.AssignStmt)
 		if !ok || len(as.Lhs) != len(as.Rhs) {
@@ -459,6 +486,40 @@ func (c *Ctx) sqlWiring() {
 			}
 		}
 		uses := 0
+		// a parameter of an unexported helper stands for the method's parameter it is handed
+		standsFor := map[types.Object]types.Object{}
+		for _, body := range c.familyBodies(fi) {
+			ast.Inspect(body, func(nd ast.Node) bool {
+				call, ok := nd.(*ast.CallExpr)
+				if !ok {
+					return true
+				}
+				fn := callee(info, call)
+				if fn == nil || fn.Exported() {
+					return true
+				}
+				d := c.P.Decls[fn.Origin()]
+				if d == nil || d.Decl.Type.Params == nil {
+					return true
+				}
+				idx := 0
+				for _, f := range d.Decl.Type.Params.List {
+					for _, nm := range f.Names {
+						if idx < len(call.Args) {
+							if id, isID := ast.Unparen(call.Args[idx]).(*ast.Ident); isID {
+								target := info.ObjectOf(id)
+								if t2, has := standsFor[target]; has {
+									target = t2
+								}
+								standsFor[info.ObjectOf(nm)] = target
+							}
+						}
+						idx++
+					}
+				}
+				return true
+			})
+		}
 		for _, body := range c.familyBodies(fi) {
 			ast.Inspect(body, func(nd ast.Node) bool {
 				call, ok := nd.(*ast.CallExpr)
@@ -496,7 +557,7 @@ func (c *Ctx) sqlWiring() {
 					k := 0
 					for _, a := range call.Args {
 						if k < len(pars) {
-							if id, isID := ast.Unparen(a).(*ast.Ident); isID && info.ObjectOf(id) == pars[k] {
+							if id, isID := ast.Unparen(a).(*ast.Ident); isID && (info.ObjectOf(id) == pars[k] || standsFor[info.ObjectOf(id)] == pars[k]) {
 								k++
 								continue
 							}
